@@ -164,6 +164,11 @@ class Analyzer:
             return None
         return None
 
+    def is_handle(self, f, d):
+        dd = f.decl(d)
+        t = f.unit.type(dd.get('ct'))
+        return bool(dd.get('ptr')) and 'char' not in t or 'iterator<' in t or '_iterator' in t
+
     # ------------------------------------------------------------ accesses
     def accesses(self, f):
         if hasattr(f, '_accesses'):
@@ -188,7 +193,25 @@ class Analyzer:
                     root = ('this', n['n'])
             if root is None:
                 continue
-            out.extend(self._classify(f, n, root))
+            start = n
+            if n['k'] == 'ref' and len(root) == 2 and self.is_handle(f, n['d']):
+                # iterator / pointer handle: the objects are the members of the pointee (lvl->t, nxt->u)
+                cur = n
+                while True:
+                    pi = f.parent.get(cur['i'])
+                    p = f.nodes[pi] if pi is not None else None
+                    if p is not None and p['k'] == 'un' and p['op'] in ('->', '*') and _is(p.get('e'), cur):
+                        cur = p
+                    elif p is not None and p['k'] in ('cast',) and _is(p.get('e'), cur):
+                        cur = p
+                    else:
+                        break
+                pi = f.parent.get(cur['i'])
+                p = f.nodes[pi] if pi is not None else None
+                if p is not None and p['k'] == 'mem' and _is(p.get('b'), cur):
+                    root = root + (p['n'],)
+                    start = p
+            out.extend(self._classify(f, start, root))
         out.sort(key=lambda a: a.order)
         f._accesses = out
         return out
@@ -288,6 +311,8 @@ class Analyzer:
             eff = self.call_effect(f, p, argi)
             if eff == 'neutral':
                 return []
+            if eff == 'wo':
+                return [Access(root, 'wo', n, nid, 'argument %d of %s (written on some paths, never read)' % (argi, p.get('f') or show(p)))]
             order = self._maxid(f, p) + 0.5 if eff == 'kill' else nid
             if eff == 'kill' and elem:
                 eff = 'elem'
@@ -393,6 +418,8 @@ class Analyzer:
         killed_at_exit = all('K' in facts for (_, facts) in exit_states) if exit_states else True
         if not bad and killed_at_exit:
             return 'kill'
+        if not bad:
+            return 'wo'    # never reads the previous content, but does not overwrite it on every path
         return 'rw'
 
 
